@@ -32,6 +32,13 @@ pub mod checks {
             e.0 += 1;
             if e.1.len() < 3 { e.1.push(w); }
         }
+        /// like `fail`, but the witness (which may print a large document and long path lists) is only built when it is going to be kept
+        pub fn fail_with(&mut self, obligation: &str, features: &[String], w: impl FnOnce() -> Value) {
+            let key = format!("{}|{}", obligation, features.join(","));
+            let e = self.failures.entry(key).or_insert((0, vec![]));
+            e.0 += 1;
+            if e.1.len() < 3 { e.1.push(w()); }
+        }
         pub fn merge(&mut self, o: Report) {
             self.evaluations += o.evaluations;
             self.nontrivial += o.nontrivial;
@@ -216,8 +223,8 @@ pub mod checks {
                             if !union_multi { f.retain(|x| x != "multi-selector-segment"); } f };
         let w = |extra: Value| json!({"query": show(q), "doc": docv, "qi": ids.0, "di": ids.1, "instance": tag, "detail": extra});
         let got: Vec<QueryRef<T>> = match got {
-            Err(_) => { { let o = format!("{}.no_panic", rep.group); rep.fail(&o, &feats_of(), w(json!("panic"))); } return None; }
-            Ok(Err(e)) => { { let o = format!("{}.ok", rep.group); rep.fail(&o, &feats_of(), w(json!(format!("Err({})", e)))); } return None; }
+            Err(_) => { { let o = format!("{}.no_panic", rep.group); rep.fail_with(&o, &feats_of(), || w(json!("panic"))); } return None; }
+            Ok(Err(e)) => { { let o = format!("{}.ok", rep.group); rep.fail_with(&o, &feats_of(), || w(json!(format!("Err({})", e)))); } return None; }
             Ok(Ok(v)) => v,
         };
         if !want.is_empty() || !got.is_empty() { rep.nontrivial += 1; }
@@ -235,7 +242,7 @@ pub mod checks {
             let (mut gd, mut wd) = (gs.clone(), ws.clone());
             gd.dedup(); wd.dedup();
             let ob = if gd == wd { "multiplicity" } else { "members" };
-            rep.fail(&format!("{}.{}", g, ob), &feats_of(), w(detail()));
+            rep.fail_with(&format!("{}.{}", g, ob), &feats_of(), || w(detail()));
         } else if !same_seq {
             // the known finding on union order is ONE specific wrong order (per selector over the whole input list): any other
             // order is a different violation and is not covered by it
@@ -244,14 +251,14 @@ pub mod checks {
                 let kf: Vec<usize> = Ctx::known_union_order(doc).query(q).iter().map(|n| n.v as *const T as usize).collect();
                 if kf != gp.iter().map(|x| x.0 as usize).collect::<Vec<_>>() { f.retain(|x| x != "multi-selector-segment"); f.push("order-differs-from-known-union-order".to_string()); }
             }
-            rep.fail(&format!("{}.order", g), &f, w(detail()));
+            rep.fail_with(&format!("{}.order", g), &f, || w(detail()));
         } else if gp.iter().zip(wp.iter()).any(|(a, b)| a.1 != b.1) {
             // the findings on path text are ONE specific wrong text per node (the name or the selector text copied verbatim): a path
             // that is neither the Normalized Path nor that text is a different violation and is not covered by them
             let known = gp.iter().zip(want.iter()).filter(|(a, b)| a.1 != b.path).all(|(a, b)| a.1 == b.kpath);
             let mut f = feats_of();
             if !known { f.retain(|x| !x.starts_with("member-name-") && !x.starts_with("escape-") && x != "double-quoted-name-selector"); f.push("path-differs-from-known-path-text".to_string()); }
-            rep.fail(&format!("{}.path", g), &f, w(detail()));
+            rep.fail_with(&format!("{}.path", g), &f, || w(detail()));
         }
         if rep.samples.len() < 6 && !want.is_empty() && rep.evaluations % 997 == 1 {
             rep.samples.push(json!({"query": show(q), "doc": docv, "result": wp.iter().map(|x| x.1.clone()).collect::<Vec<_>>()}));
@@ -514,7 +521,7 @@ pub mod checks {
                         let (mut gi, mut wi): (Vec<usize>, Vec<usize>) = (got.iter().map(|x| x.0).collect(), want.iter().map(|x| x.0).collect());
                         let same = gi == wi;
                         gi.sort(); wi.sort();
-                        let det = json!({"observed": got.iter().map(|x| &x.1).collect::<Vec<_>>(), "expected": want.iter().map(|x| &x.1).collect::<Vec<_>>()});
+                        let det = || json!({"observed": got.iter().map(|x| &x.1).collect::<Vec<_>>(), "expected": want.iter().map(|x| &x.1).collect::<Vec<_>>()});
                         if gi != wi {
                             // the finding on string-literal escapes is ONE specific wrong denotation (the text between the quotes taken verbatim):
                             // a result that is neither the RFC one nor that one is a different violation
@@ -525,7 +532,7 @@ pub mod checks {
                                 kf.sort();
                                 if kf != gi { f.retain(|x| x != "string-literal-needs-escaping"); f.push("result-differs-from-known-literal-denotation".to_string()); }
                             }
-                            rep.fail(&format!("{}.members", name), &f, w(det));
+                            rep.fail_with(&format!("{}.members", name), &f, || w(det()));
                         }
                         else if !same {
                             let mut f = feats.clone();
@@ -533,7 +540,7 @@ pub mod checks {
                                 let kf: Vec<usize> = Ctx::known_union_order(d).query(q).iter().map(|n| n.v as *const Value as usize).collect();
                                 if kf != got.iter().map(|x| x.0).collect::<Vec<_>>() { f.retain(|x| x != "multi-selector-segment"); f.push("order-differs-from-known-union-order".to_string()); }
                             }
-                            rep.fail(&format!("{}.order", name), &f, w(det));
+                            rep.fail_with(&format!("{}.order", name), &f, || w(det()));
                         }
                         // the public trait methods (src/lib.rs) are position-wise projections of the same evaluation
                         use crate::JsonPath;
